@@ -439,6 +439,47 @@ def case_script(c):
     s = c["script"] if isinstance(c, dict) else c
     return [l if len(l) < 600 else l[:600] + "...(%d chars)" % len(l) for l in s]
 
+def full_script(c):
+    """the complete script of a case (replay files hold it unabridged)"""
+    return list(c["script"]) if isinstance(c, dict) else list(c)
+
+def case_extra(c):
+    """what a replay needs besides the script (input files of the tool runs)"""
+    return {k: c[k] for k in ("inputs", "names") if isinstance(c, dict) and k in c}
+
+def generic_replay(ctx, mod, rp):
+    """./check <id> --replay <file>: run the stored script through the implementation driver (and the model driver where the script is in
+    its language) on /repo's current tree, print both outputs and the first line on which they differ. Exit status 1 if the implementation
+    crashes or the two differ, else 0."""
+    script = rp.get("script") or []
+    if not script:
+        print("replay file holds no script (a broken proof obligation or build): %s" % str(rp.get("broken") or rp.get("what"))[:1000])
+        return 1
+    wstack = any(l.startswith(("W ", "PRE ", "CRASHAT", "FAILONCE", "SHORTONCE", "XW ")) or l.startswith(("X new name", "X new fd")) for l in script)
+    text = "".join(l + "\n" for l in script)
+    if wstack:
+        impl = build_impl("plain")
+        il, files, rc = run_w(impl["drvw"], script)
+        err = ""
+    else:
+        rc, out, err = run_exec(ctx["impl"]["drv"], text, 900, env_extra=getattr(mod, "REPLAY_ENV", None))
+        il = [l for l in out.split("\n") if l]
+    print("== implementation (exit status %d)" % rc)
+    for l in il[-40:]: print("   " + l[:300])
+    if err.strip(): print("   stderr: " + crash_summary(err) if rc != 0 else "")
+    if rp.get("expected"): print("== expected: %s" % str(rp["expected"])[:1000])
+    if any(l.startswith(("XW ",)) for l in script) or not any(l.startswith(("X new name", "X new fd", "CRASHAT", "FAILONCE", "SHORTONCE")) for l in script):
+        rcm, outm, errm = run_exec(ctx["mdl"], text, 900, model=True)
+        ml = [l for l in outm.split("\n") if l]
+        print("== model (exit status %d)" % rcm)
+        for l in ml[-40:]: print("   " + l[:300])
+        k = next((i for i, (x, y) in enumerate(zip(il, ml)) if x != y), None if len(il) == len(ml) else min(len(il), len(ml)))
+        if k is not None:
+            print("== first difference at result %d: implementation %r vs model %r" % (k, (il[k:k + 1] or ["<nothing>"])[0][:300], (ml[k:k + 1] or ["<nothing>"])[0][:300]))
+            print("   (raw outputs; the check itself compares after canonicalisation - see harness/py/p_%s.py)" % rp.get("property", "?"))
+            return 1
+    return 1 if rc != 0 else 0
+
 def summarize_cov(rep, cases, rule, diffs, fails, nontrivial=None):
     kinds = {}
     distinct = set()
